@@ -45,6 +45,8 @@ def e1_cases(tier, seed):
     out += common.add_algs(bat, lambda c: common.batch_algs(c, lvl))
     out += common.add_algs(common.batch_seq_scope(lvl),
                            common.batch_seq_algs)
+    out += common.add_algs(common.zero_comp_scope(lvl),
+                           lambda c: common.shipped(c, lvl, "diag"))
     out += common.add_algs(common.wide_scope(lvl),
                            lambda c: common.wide_algs(c, lvl))
     return common.rotate(out, seed)
